@@ -2,7 +2,9 @@
 from vlib.framework import PUnit, LUnit, BUnit
 from bounded import b_genparams as B
 
-P_UNITS = []
+from contracts import history as H
+
+P_UNITS = [LUnit("history-ownership", H.lemma_history)]
 
 
 def build(tier, seed):
